@@ -37,6 +37,14 @@ def impl_oracle(c):
                 o.get("text"), o.get("got"), c["want"])
         if c.get("reject"):
             return "trailing-accepted", "Unmarshal accepted a document with content after the value"
+    if c.get("plain") and op in ("tojson", "unmarshal"):
+        rs = c.get("reasons") or []
+        accepted = bool(o.get("ok"))
+        if not accepted and not rs:
+            return "plain-json-rejected", ("valid RFC 8259 text rejected for no documented reason (errors %s)"
+                                           % (o.get("errs") or o.get("first")))
+        if accepted and rs:
+            return "plain-json-accepted-despite", "accepted although %s" % ",".join(rs)
     if op == "unmarshal" and o.get("res") == "json":
         return "invalid-json", "parsed without error, but json.Unmarshal rejected the emitted text: %s" % o.get("note")
     return None
